@@ -171,6 +171,7 @@ Proof.
     apply (exec_capacity c w st v None false r Hwf HW Hfuse Hr Hadm (shrink_to c n)).
     + discriminate.
     + intros _. right. eexists. reflexivity.
+  - (* OViews *) exact (exec_views c w st v r HW Hfuse Hr).
   - (* OSpareWrite *)
     cbn [admissible] in Hadm. exact (exec_spare_write c w st a v k r Hwf HW Hfuse Hr Hadm).
   - (* ODownWrong *)
@@ -274,6 +275,7 @@ Proof.
     try (unfold sp_swap, sp_swap_temp in H; crush H; cbn; split; lia);
     try (unfold sp_lazy_down in H; crush H; cbn; split; lia);
     try (unfold sp_spare_write in H; crush H; cbn; split; lia);
+    try (unfold sp_views in H; crush H; cbn; split; lia);
     crush H; cbn; split; lia.
 Qed.
 Lemma spec_nx_ge c st nx o r : spec_step c st nx o = Some r -> nx <= s_nx r.
@@ -633,7 +635,8 @@ Definition ex_ops : list op :=
     (* lazy clones of a removal handle pushed into another vector before the handle is consumed: two go into the
        relocating backend, then the handle is dropped; three are offered to StackN<2,8>: the third is refused and the
        unwinding drops the handle *)
-    ORemove Erased 9 0 (KLazy 2 10 KDrop); OPop Erased 9 (KLazy 3 8 (KPush 10)) ].
+    ORemove Erased 9 0 (KLazy 2 10 KDrop); OPop Erased 9 (KLazy 3 8 (KPush 10));
+    OViews 8 ].                                   (* view geometry of the full StackN<2,8>: 6 bytes of elements, no spare *)
 
 Example ex_spec_defined : exists rs, spec_run ex_cfg [] 1 ex_ops = Some rs /\ length rs = length ex_ops.
 Proof. eexists. split; [vm_compute; reflexivity|reflexivity]. Qed.
@@ -666,7 +669,7 @@ Example ex_outcomes :
      (0,0,[1]); (0,0,[1; 1; 56; 0; 56]); (2,3,[]); (0,0,[62]); (2,1,[]);
      (0,0,[]); (0,0,[]); (0,0,[64]);
      (0,0,[]); (0,0,[]); (0,0,[61]); (2,1,[]);
-     (0,0,[]); (2,3,[])].
+     (0,0,[]); (2,3,[]); (0,0,[0; 6; 6; 0; 0; 2; 6; 0; 0])].
 Proof. vm_compute. reflexivity. Qed.
 
 (** ** Corollaries in the vocabulary of the properties *)
